@@ -466,9 +466,9 @@ def run(ctx):
     rng = ctx.rng
     streams = [
         ("gw(hand-written + exhaustive small scope)", HAND + gen_exhaustive(2 if q else 3)),
-        ("gw(fault scenarios: refuse/close/hang/timeout/abort/return)", gen_scenarios(rng, 10000 if q else 60000)),
-        ("gw(random histories, healthy backends)", gen_random(rng, 3000 if q else 20000, 30, False)),
-        ("gw(random histories, scripted faults)", gen_random(rng, 12000 if q else 80000, 40, True)),
+        ("gw(fault scenarios: refuse/close/hang/timeout/abort/return)", gen_scenarios(rng, 10000 if q else 100000)),
+        ("gw(random histories, healthy backends)", gen_random(rng, 3000 if q else 30000, 30, False)),
+        ("gw(random histories, scripted faults)", gen_random(rng, 12000 if q else 150000, 40, True)),
     ]
     for name, lines in streams:
         for l in lines:
